@@ -342,3 +342,13 @@ PLAN["C18"]["thorough"]["tests"][0]["shards"] = 13
 PLAN["C18"]["thorough"]["tests"].append({"run": "TestC18Bootstrap", "shards": 3, "checks": 1500, "timeout": 840})
 PLAN["C18"]["rule"] += ("; TestC18Bootstrap: the scripted bootstrap programs of C09 (registrations, failed signals, single- and multi-address starts that succeed or fail half-way, the volume going down and being "
                         "bootstrapped again) with the list/backends/RW-count/read-only agreement checked after every step")
+
+# native (coverage-guided) fuzzing in the thorough tier: go test -c -fuzz builds the instrumented binary
+PLAN["C01"]["thorough"]["tests"].append({"run": "FuzzC01Ops", "fuzz": "FuzzC01Ops", "shards": 1, "fuzztime": "150s", "workers": 8, "timeout": 400})
+PLAN["C06"]["thorough"]["tests"].append({"run": "FuzzC06Ops", "fuzz": "FuzzC06Ops", "shards": 1, "fuzztime": "150s", "workers": 8, "timeout": 400})
+PLAN["C12"]["thorough"]["tests"].append({"run": "FuzzC12Ops", "fuzz": "FuzzC12Ops", "shards": 1, "fuzztime": "150s", "workers": 8, "timeout": 400})
+PLAN["C15"]["thorough"]["tests"].append({"run": "FuzzC15WireRead", "fuzz": "FuzzC15WireRead", "shards": 1, "fuzztime": "90s", "workers": 8, "timeout": 300})
+for _pid, _t in (("C01", "FuzzC01Ops"), ("C06", "FuzzC06Ops"), ("C12", "FuzzC12Ops")):
+    PLAN[_pid]["rule"] += ("; thorough tier: native coverage-guided fuzzing (%s, 150 s, 8 workers) of the same executor - bytes decode into an op program, every oracle of the engine family runs inside the target" % _t)
+PLAN["C15"]["rule"] = PLAN["C15"]["rule"].replace("(a native go-fuzz entry FuzzC15WireRead exists for manual campaigns; it is not part of the tiers because the pre-built test binary carries no coverage instrumentation)",
+                                                  "(thorough tier: FuzzC15WireRead, native coverage-guided fuzzing of the decode differential, 90 s)")
